@@ -9,6 +9,7 @@ import (
 	"fmt"
 	"math"
 	"math/big"
+	"strings"
 	"testing"
 
 	"github.com/db47h/decimal"
@@ -44,7 +45,7 @@ func TestF1_QuoExact(t *testing.T) {
 		if x.Acc() != decimal.Exact {
 			t.Fatal("setup")
 		}
-		z := new(decimal.Decimal).SetPrec(uint(len(c[1]) + 5)).Quo(x, y)
+		z := new(decimal.Decimal).SetPrec(uint(len(c[1])+5)).Quo(x, y)
 		if z.Cmp(q) != 0 || z.Acc() != decimal.Exact {
 			t.Errorf("(q*y)/y with y=%s q=%s: got %s", c[0], c[1], str(z))
 		}
@@ -318,7 +319,7 @@ func TestF11b_UnknownFormat(t *testing.T) {
 func TestF12b_ZeroSumAlias(t *testing.T) {
 	x := new(decimal.Decimal)
 	z := new(decimal.Decimal).SetMode(decimal.ToNegativeInf)
-	z.Neg(z) // -0
+	z.Neg(z)    // -0
 	z.Sub(x, z) // (+0) - (-0) = +0
 	if z.Signbit() {
 		t.Errorf("z=-0 (ToNegativeInf); z.Sub(+0, z) = -0, want +0")
@@ -393,5 +394,22 @@ func TestF20_SqrtCorrectlyRounded(t *testing.T) {
 	two := new(decimal.Decimal).SetPrec(5).SetMode(decimal.ToPositiveInf).Sqrt(decimal.NewDecimal(2, 0))
 	if two.Text('g', -1) != "1.4143" || two.Acc() != decimal.Above {
 		t.Errorf("Sqrt(2) prec 5 ToPositiveInf = %v (%v)", two, two.Acc())
+	}
+}
+
+// F21: recursive division (divisors of 100 words and more) with a dividend half a block longer than the divisor
+func TestF21_DivRecursiveFinalBlock(t *testing.T) {
+	us := strings.Repeat("9", 19*150)
+	vs := "5" + strings.Repeat("0", 18) + strings.Repeat("0", 19*49) + strings.Repeat("9", 19*50)
+	x, _ := new(decimal.Decimal).SetPrec(19 * 150).SetString(us)
+	y, _ := new(decimal.Decimal).SetPrec(19 * 100).SetString(vs)
+	z := new(decimal.Decimal).SetPrec(34).SetMode(decimal.ToZero)
+	z.Quo(x, y) // panicked with "impossible"
+	xi, _ := new(big.Int).SetString(us, 10)
+	yi, _ := new(big.Int).SetString(vs, 10)
+	q := new(big.Int).Quo(xi, yi).String()
+	want, _ := new(decimal.Decimal).SetPrec(34).SetMode(decimal.ToZero).SetString(q)
+	if z.Cmp(want) != 0 {
+		t.Errorf("Quo = %v, want %v", z, want)
 	}
 }
